@@ -192,7 +192,7 @@ class DepthDataNative(Contract):
     bounded_scope = ("sequences of 1-4 add_data calls mixing depth logs and interval logs on one hole (unsorted, repeated, nearly equal depths; identical, nested, overlapping, "
                      "contiguous and disjoint intervals; logs added together or one by one): after every call each vertex with a depth sits at the reference position of that depth, "
                      "each interval cell joins the positions of its from and to depths, each distinct interval is listed once and every value stays attached to its depth or interval "
-                     "(24 fixed sequences + 40 seeded in the quick tier, 600 in the thorough tier)")
+                     "(24 fixed sequences, 4 with nearly equal depths merged under an explicit collocation distance, + 40 seeded in the quick tier, 600 in the thorough tier)")
 
     D = lambda name, depths: ("depth", name, depths)
     I_ = lambda name, ft: ("interval", name, ft)
@@ -217,6 +217,16 @@ class DepthDataNative(Contract):
         for steps in self.FIXED:
             for together in (True, False):
                 yield {"steps": steps, "together": together}
+        # depths / intervals close to, but not equal to, earlier ones, merged under an explicit tolerance:
+        # a merged sample keeps the position and the label of the vertex it joins
+        near = [
+            [("depth", "a", [12.0, 30.0, 44.0]), ("depth", "b", [30.3, 50.0])],
+            [("depth", "a", [12.0, 30.0]), ("depth", "b", [11.8, 30.2]), ("depth", "c", [29.9])],
+            [("interval", "i", [[12.0, 18.0], [18.0, 30.0]]), ("interval", "j", [[12.2, 18.3], [40.0, 50.0]])],
+            [("interval", "i", [[10.0, 20.0]]), ("depth", "a", [20.2, 35.0]), ("interval", "j", [[9.8, 20.1]])],
+        ]
+        for steps in near:
+            yield {"steps": steps, "together": False, "collocation_distance": 0.5}
         grid = [0.0, 5.0, 10.0, 15.0, 20.0, 30.0, 60.0, 65.0, 70.0]
         for _ in range(40 if tier == "quick" else 600):
             steps = []
@@ -233,6 +243,7 @@ class DepthDataNative(Contract):
 
     @staticmethod
     def _check(dh, collar, sv, written_d, written_i, case, where):
+        tol = max(1e-3, float(case.get("collocation_distance") or 0.0))
         verts = np.asarray(dh.vertices) if dh.vertices is not None else np.zeros((0, 3))
         if dh.get_data("DEPTH"):
             depth_vals = np.asarray(dh.get_data("DEPTH")[0].values, dtype=float)
@@ -244,7 +255,7 @@ class DepthDataNative(Contract):
             for name, table in written_d.items():
                 v = np.asarray(dh.get_data(name)[0].values, dtype=float)
                 for dep, val in table.items():
-                    hit = np.where(np.isclose(depth_vals, dep, atol=1e-3))[0]
+                    hit = np.where(np.isclose(depth_vals, dep, atol=tol))[0]
                     if len(hit) != 1 or not np.isclose(v[hit[0]], val):
                         got = None if len(hit) != 1 else v[hit[0]]
                         return f"{where}: value {val} added at depth {dep} for '{name}' is found as {got} (depths {depth_vals.tolist()}, values {v.tolist()}) ({case})"
@@ -265,7 +276,7 @@ class DepthDataNative(Contract):
             for name, table in written_i.items():
                 v = np.asarray(dh.get_data(name)[0].values, dtype=float)
                 for (a, b), val in table.items():
-                    hit = np.where(np.isclose(frm, a, atol=1e-3) & np.isclose(to, b, atol=1e-3))[0]
+                    hit = np.where(np.isclose(frm, a, atol=tol) & np.isclose(to, b, atol=tol))[0]
                     if len(hit) != 1:
                         return f"{where}: interval {(a, b)} of '{name}' is listed {len(hit)} times in FROM/TO {frm.tolist()} / {to.tolist()} ({case})"
                     if len(v) <= hit[0] or not np.isclose(v[hit[0]], val):
@@ -302,8 +313,9 @@ class DepthDataNative(Contract):
                 dh.add_data(merged)
                 return self._check(dh, collar, sv, written_d, written_i, case, "after one add_data call")
             done_d, done_i = {}, {}
+            ckw = {"collocation_distance": case["collocation_distance"]} if case.get("collocation_distance") else {}
             for n_, (kind, sp) in enumerate(specs):
-                dh.add_data(sp)
+                dh.add_data(sp, **ckw)
                 name = next(iter(sp))
                 (done_d if kind == "depth" else done_i)[name] = (written_d if kind == "depth" else written_i)[name]
                 bad = self._check(dh, collar, sv, done_d, done_i, case, f"after call {n_ + 1}")
